@@ -615,6 +615,13 @@ func cmpOf(cond ssa.Value, pol bool) (Cmp, bool) {
 			pol = !pol
 			continue
 		}
+		// a boolean handed to a function literal at its single call site: the value computed there
+		if prm, isP := cond.(*ssa.Parameter); isP {
+			if a := litParamBinding(prm); a != nil {
+				cond = a
+				continue
+			}
+		}
 		break
 	}
 	if b, ok := cond.(*ssa.BinOp); ok {
